@@ -19,8 +19,8 @@ BATCHES = {
         ("poor", 8, 100, {}),
         # the same drivers through the real ABCI boundary (signed DeliverTx, EndBlock/Commit/BeginBlock of every module in
         # app.go's order): module wiring, ante handler and baseapp rollback are part of what is observed
-        ("pay", 3, 50, {"_abci": True}),
-        ("life", 2, 50, {"_abci": True}),
+        ("pay", 2, 40, {"_abci": True}),
+        ("life", 1, 40, {"_abci": True}),
         ("super", 2, 60, {"_abci": True}),
         ("reward", 2, 60, {"_abci": True}),
     ],
